@@ -278,7 +278,7 @@ def be_key(job, key):
     for l in key.split('|', 1)[1].split('+'):
         if re.match(r'^i(32|64)_atomic_(load|store)', l):
             labs.append('atomic-load-or-store')
-        elif re.match(r'^i(32|64)_atomic_rmw', l):
+        elif re.match(r'^i(32|64)_atomic_rmw', l) or re.match(r'^(read|write)SwapU\d+$', l):      # the plain swapped accesses are (inlined) helpers of the mutex path
             labs.append('mutex-rmw')
         else:
             labs.append(l)
